@@ -55,12 +55,23 @@ def reference(sources, name):
                     return "error", "self-inherit with no older source"
                 q.append((cur, stack[1:]))
             else:
-                if inh in seen:
-                    return "error", "cycle (or a section reached twice)"
-                seen.add(inh)
                 if inh not in lookup:
                     return "error", "missing target"
+                if inh in seen:
+                    continue   # reached before along another path (a diamond): its values are in line already; not a cycle
+                seen.add(inh)
                 q.append((inh, lookup[inh]))
+    # a cycle: some section reaches itself through one or more inherit steps (self-inherits name the older definition, not a cycle)
+    edges = {n: {i for d in ds for i in d.get("inherit", ()) if i != n} for n, ds in lookup.items() if n in seen}
+    for start in seen:
+        todo, reached = list(edges.get(start, ())), set()
+        while todo:
+            x = todo.pop()
+            if x == start:
+                return "error", "cycle"
+            if x not in reached:
+                reached.add(x)
+                todo.extend(edges.get(x, ()))
     vals = {}
     for d in order:
         for k, v in d.items():
@@ -196,8 +207,16 @@ def enum_graphs(seed):
     ]
     for b in bad:
         check(b, "must be reported as an error")
+    # a section reached along two paths (a diamond) is no cycle: breadth-first order still says which value wins
+    dia = lambda **over: dict({"s": {"class": thing, "inherit": ["b", "c"]}, "b": {"k1": "b.k1", "inherit": ["d"]}, "c": {"k1": "c.k1", "k2": "c.k2", "inherit": ["d"]},
+                               "d": {"k1": "d.k1", "k2": "d.k2", "k3": "d.k3"}}, **over)
+    check([dia()], "diamond")
+    check([dia(s={"class": thing, "inherit": ["b", "c", "d"]})], "diamond with a direct edge to its bottom")
+    check([dia(), {"d": {"k3": "newer d.k3", "inherit": ["d"]}}], "diamond whose bottom is redefined by a later source")
+    check([dia(d={"k3": "d.k3", "inherit": ["c"]})], "a cycle entered through a section that was reached before: must be reported as an error")
+    check([dia(d={"k3": "d.k3", "inherit": ["s"]})], "a cycle through the collapsed section below a diamond: must be reported as an error")
     return {"name": "C43.collapse.bounded_enumeration", "bound": f"8 tree shapes over <= 5 sections (two ordered parents, two levels) x {120 if thorough else 40} seeded key assignments, each with one source, with a second source redefining a section and with further sources redefining the collapsed section "
-            "(self-inherit through the sources at any position among the bases), every multi-source case also with the sources added one by one and the section collapsed after each; 6 cyclic / dangling graphs", "cases": cases, "failures": fails}
+            "(self-inherit through the sources at any position among the bases), every multi-source case also with the sources added one by one and the section collapsed after each; 6 cyclic / dangling graphs, 5 diamond-shaped ones (two of them with a cycle below the join)", "cases": cases, "failures": fails}
 
 
 def t_render_value(ex):
